@@ -57,8 +57,15 @@ def run(ctx):
     warnings.simplefilter("ignore")
     nsets = 70 if ctx.tier == "quick" else 1000
     ob = "SplineTransmissivity = model tSplineClosed (closed form, 60 digits) within 1e-6 relative"
-    for _ in range(nsets):
+    for i_set in range(nsets):
         zs, ks = hyd.gen_knots(ctx.rng, nmin=2, nmax=8, positive=True)
+        if i_set % 25 == 3:
+            # three knots, the middle one at the peat surface (level exactly 0) where conductivity jumps by orders of
+            # magnitude: every level above the surface has the value 0.0 as its only interior knot
+            zs = [-float(ctx.rng.randint(200, 900)), 0.0, float(ctx.rng.randint(50, 400))]
+            k0 = 10 ** ctx.rng.uniform(-5, -2)
+            ks = [k0, k0 * 10 ** ctx.rng.uniform(2, 5), k0 * 10 ** ctx.rng.uniform(5, 8)]
+            ctx.count("sets_whose_only_interior_knot_is_level_zero")
         if ctx.rng.random() < 0.2:
             i = ctx.rng.randrange(len(ks) - 1)
             ks[i + 1] = ks[i]                 # a segment of constant conductivity
